@@ -79,6 +79,75 @@ def _const_of(b, o):
     return vals.pop() if len(vals) == 1 and not oth else None
 
 
+def _tuple_component_of_param(x, o):
+    """operand o of closure body x is component i of the closure's (tuple / reference to tuple) parameter: returns i"""
+    from flow import origins, is_local_op, defs_of
+    if not is_local_op(o):
+        return None
+    seen = set()
+    work = [o]
+    while work:
+        cur = work.pop()
+        if not is_local_op(cur) or (cur['l'], tuple(cur['p'])) in seen:
+            continue
+        seen.add((cur['l'], tuple(cur['p'])))
+        if 2 <= cur['l'] <= x.argc:
+            for pr in cur['p']:
+                m = re.match(r'^\.(\d+)$', pr)
+                if m:
+                    return int(m.group(1))
+        for q, d in defs_of(x, cur['l']):
+            if d['k'] == 'assign' and d['rv']['k'] in ('use', 'cast'):
+                src = d['rv']['o']
+                if is_local_op(src):
+                    work.append({'l': src['l'], 'p': list(src['p']) + [p_ for p_ in cur['p'] if p_ != '*']})
+            elif d['k'] == 'assign' and d['rv']['k'] == 'ref':
+                src = d['rv']['pl']
+                work.append({'l': src['l'], 'p': list(src['p']) + [p_ for p_ in cur['p'] if p_ != '*']})
+    return None
+
+
+def _tuple_component_via_upvar(x, y, o):
+    """operand o of the nested closure y is a captured variable of x that is a component of x's parameter"""
+    from flow import upvar_names
+    names = upvar_names(y, o)
+    for l, n in x.names.items():
+        if n in names:
+            c = _tuple_component_of_param(x, {'l': l, 'p': []})
+            if c is not None:
+                return c
+    return None
+
+
+def _const_tuple_arrays(P, b):
+    """literal arrays of tuples of constants in b (or promoted): list of list of tuples (str for &str/char constants, int for integers)"""
+    from flow import const_val, is_local_op, defs_of
+    out = []
+    for x in P.with_closures(b):
+        for q, st in x.iter_stmts():
+            if st['k'] == 'assign' and st['rv']['k'] == 'agg' and st['rv'].get('ak') == 'array':
+                arr = []
+                for o in st['rv']['ops']:
+                    tup = None
+                    if is_local_op(o):
+                        for q2, d in defs_of(x, o['l']):
+                            if d['k'] == 'assign' and d['rv']['k'] == 'agg' and d['rv'].get('ak') == 'tuple':
+                                tup = []
+                                for e in d['rv']['ops']:
+                                    c = _const_of(x, e)
+                                    if c is None:
+                                        tup.append(None)
+                                    elif re.match(r'^\d+(_[iu]\d+|_usize)?$', c):
+                                        tup.append(int(re.sub(r'_.*$', '', c)))
+                                    else:
+                                        tup.append(c.strip('"').strip("'"))
+                    if tup is not None:
+                        arr.append(tup)
+                if arr:
+                    out.append(arr)
+    return out
+
+
 def mir_radix_table(P, b):
     """{prefix: set of radix constants} from the MIR of b (with its closures): for every `text.strip_prefix(<const>)` the radix constants
     that reach a from_str_radix call on the way that starts at the Some edge of that test and ends at the next prefix test -
@@ -96,6 +165,8 @@ def mir_radix_table(P, b):
     test_pos = {pos for pos, t, c in tests}
     conv = [(pos, t) for pos, t in b.iter_calls() if call_matches(t, r'from_str_radix$') and len(t['args']) > 1]
     table = {}
+    alias = {}
+    extra_tests = []
     for pos, t, pre in tests:
         rad = set()
         # Some edge of the test: the switch on the discriminant of the result (directly or after moves)
@@ -105,9 +176,17 @@ def mir_radix_table(P, b):
         while grew:
             grew = False
             for q, t2 in b.iter_calls():
-                if call_matches(t2, r'Option::<T>::(filter|inspect|take_if)$') and t2['args'] and is_local_op(t2['args'][0]) and t2['args'][0]['l'] in tl and t2['dst']['l'] not in tl:
+                if call_matches(t2, r'Option::<T>::(filter|inspect|take_if|or_else|or)$') and t2['args'] and is_local_op(t2['args'][0]) and t2['args'][0]['l'] in tl and t2['dst']['l'] not in tl:
                     tl |= forward_taint(b, {t2['dst']['l']}, through_refs=False)
                     grew = True
+                    # `strip_prefix("0x").or_else(|| text.strip_prefix("0X"))`: the alternative prefix shares what follows
+                    if call_matches(t2, r'or_else$') and len(t2['args']) > 1:
+                        for org in origins(b, t2['args'][1]):
+                            if org[0] not in ('param', 'const', 'place') and org[1].get('k') == 'assign' and org[1]['rv']['k'] == 'agg' and org[1]['rv'].get('ak') == 'closure':
+                                cb = P.bodies.get(org[1]['rv'].get('fn'))
+                                for q3, t3 in (cb.iter_calls() if cb is not None else []):
+                                    if call_matches(t3, r'str>::strip_prefix$') and len(t3['args']) > 1 and _const_of(cb, t3['args'][1]) is not None:
+                                        alias.setdefault(pre, set()).add(_const_of(cb, t3['args'][1]).strip('"').strip("'"))
         some_t = None
         for q, st in b.iter_stmts():
             if st['k'] == 'assign' and st['rv']['k'] == 'discr' and st['rv']['pl']['l'] in tl and not st['rv']['pl']['p']:
@@ -144,6 +223,32 @@ def mir_radix_table(P, b):
                                 if call_matches(ct, r'from_str_radix$') and len(ct['args']) > 1 and _const_of(cb, ct['args'][1]) is not None:
                                     rad.add(_const_of(cb, ct['args'][1]))
         table.setdefault(pre, set()).update(int(re.sub(r'_u32$', '', r)) for r in rad if re.match(r'^\d+(_u32)?$', r))
+        for other in alias.get(pre, ()):
+            table.setdefault(other, set()).update(table[pre])
+            extra_tests.append((pos, other))
+    # data-driven form: `[("0x", 16), ("0X", 16), ..].iter().find_map(|(prefix, radix)| text.strip_prefix(prefix).and_then(|d| from_str_radix(d, *radix).ok()))`
+    # the table is the literal array; the closure must use component i as the prefix and component j as the radix
+    for x in P.with_closures(b):
+        if x.kind != 'Closure':
+            continue
+        for q, t in x.iter_calls():
+            if call_matches(t, r'str>::strip_prefix$') and len(t['args']) > 1 and _const_of(x, t['args'][1]) is None:
+                ci = _tuple_component_of_param(x, t['args'][1])
+                cj = None
+                for y in [x] + P.closures_of(x):
+                    for q2, t2 in y.iter_calls():
+                        if call_matches(t2, r'from_str_radix$') and len(t2['args']) > 1 and _const_of(y, t2['args'][1]) is None:
+                            cj = _tuple_component_of_param(y, t2['args'][1]) if y is x else _tuple_component_via_upvar(x, y, t2['args'][1])
+                if ci is None or cj is None:
+                    continue
+                for arr in _const_tuple_arrays(P, b):
+                    for tup in arr:
+                        if ci < len(tup) and cj < len(tup) and isinstance(tup[ci], str) and isinstance(tup[cj], int):
+                            table.setdefault(tup[ci], set()).add(tup[cj])
+                            # the table scan happens where the closure is applied: use the position of the adaptor call in b
+                            for q3, t3 in b.iter_calls():
+                                if any(is_local_op(a_) and any(o_[0] not in ('param', 'const', 'place') and o_[1].get('k') == 'assign' and o_[1]['rv']['k'] == 'agg' and o_[1]['rv'].get('fn') == x.id for o_ in origins(b, a_)) for a_ in t3['args']):
+                                    extra_tests.append((q3, tup[ci]))
     # default arm: conversions reachable from the entry when every test fails = not inside any Some region
     zero_cmp = [pos for pos, t in b.iter_calls() if call_matches(t, r'PartialEq.*::eq$|::eq$') and any(_const_of(b, a) in ('"0"',) or any(org[0] == 'const' and str(const_val(org[1])) == '"0"' for org in (origins(b, a) if is_local_op(a) else [])) for a in t['args'])]
     if not zero_cmp:
@@ -169,7 +274,7 @@ def mir_radix_table(P, b):
                         if not is_local_op(o) and 'u32' in str(const_val(o)):
                             allrad.add(str(const_val(o)))
     allrad = {int(re.sub(r'_u32$', '', r)) for r in allrad if re.match(r'^\d+(_u32)?$', r)}
-    return {'table': table, 'tests': [(pos, pre) for pos, t, pre in tests], 'zero_cmp': zero_cmp, 'conv': conv, 'all_radix': allrad}
+    return {'table': table, 'tests': [(pos, pre) for pos, t, pre in tests] + extra_tests, 'zero_cmp': zero_cmp, 'conv': conv, 'all_radix': allrad}
 
 
 def run(ctx):
